@@ -66,7 +66,7 @@ Reader ==
              \/ MidFrame(rd) /\ outcome' = "err"
           /\ UNCHANGED <<rd, closed>>
        \* the connection was closed by its owner / a caller got an error: nothing to check
-       \/ /\ IsEvent("Close") /\ UNCHANGED <<rd, closed, outcome>>
+       \/ /\ IsEvent("Close") /\ closed' = TRUE /\ UNCHANGED <<rd, outcome>>
        \/ /\ IsEvent("Err") /\ outcome = "err" /\ UNCHANGED <<rd, closed, outcome>>
        \/ /\ IsEvent("Err") /\ outcome = "run"
           /\ \/ rd.st = "err" /\ outcome' = "err"
